@@ -14,6 +14,7 @@ type GInfo struct {
 	ID     string
 	Reason string   // e.g. "sync.Mutex.Lock", "sync.RWMutex.RLock", "chan receive", "running"
 	Funcs  []string // function names, innermost first
+	Files  []string // source file of each frame (same index as Funcs)
 }
 
 var gHeader = regexp.MustCompile(`^goroutine (\d+)(?: gp=\S+ m=\S+(?: mp=\S+)?)? \[([^\],]+)(?:, [^\]]*)?\]:`)
@@ -37,12 +38,21 @@ func ParseGoroutines(dump string) []GInfo {
 			continue
 		}
 		g := GInfo{ID: m[1], Reason: m[2]}
-		for _, ln := range lines[1:] {
+		for k := 1; k < len(lines); k++ {
+			ln := lines[k]
 			if strings.HasPrefix(ln, "\t") || strings.HasPrefix(ln, "created by") {
 				continue
 			}
 			if i := strings.LastIndex(ln, "("); i > 0 {
 				g.Funcs = append(g.Funcs, ln[:i])
+				file := ""
+				if k+1 < len(lines) && strings.HasPrefix(lines[k+1], "\t") {
+					file = strings.TrimSpace(lines[k+1])
+					if j := strings.Index(file, ":"); j > 0 {
+						file = file[:j]
+					}
+				}
+				g.Files = append(g.Files, file)
 			}
 		}
 		out = append(out, g)
@@ -70,4 +80,17 @@ func BlockedIn(gs []GInfo, substr string) []string {
 // unlock can end).
 func IsLockWait(reason string) bool {
 	return strings.HasPrefix(reason, "sync.Mutex.Lock") || strings.HasPrefix(reason, "sync.RWMutex.RLock") || strings.HasPrefix(reason, "sync.RWMutex.Lock")
+}
+
+// IsRepoSource reports whether a source file belongs to the code under test (not to the harness,
+// the runtime, the standard library or a dependency).
+func IsRepoSource(file string) bool {
+	if !strings.Contains(file, "/internal/") && !strings.Contains(file, "/cmd/") {
+		return false
+	}
+	if strings.Contains(file, "/pkg/mod/") || strings.Contains(file, "/opt/veriftools/") || strings.Contains(file, "/internal/verifkit/") {
+		return false
+	}
+	base := file[strings.LastIndex(file, "/")+1:]
+	return !strings.HasPrefix(base, "zz_verif_") && !strings.HasSuffix(base, "_test.go")
 }
